@@ -107,6 +107,21 @@ def run(module, cfg, workers=16, timeout=600, simulate=None, depth=None, seed=No
         if os.path.isabs(module):
             shutil.copy(module, work)
             module = os.path.splitext(os.path.basename(module))[0]
+        if isinstance(cfg, dict) and cfg.get("DEFS"):
+            # constants that a cfg file cannot express (tuples, records): wrapper module
+            cfg = dict(cfg)
+            defs = cfg.pop("DEFS")
+            wrap = module + "_run"
+            with open(os.path.join(work, wrap + ".tla"), "w") as f:
+                f.write("---- MODULE %s ----\nEXTENDS %s\n" % (wrap, module))
+                for k, v in defs.items():
+                    f.write("def_%s == %s\n" % (k, v))
+                f.write("====\n")
+            sub = dict(cfg.get("SUBST", {}))
+            for k in defs:
+                sub[k] = "def_%s" % k
+            cfg["SUBST"] = sub
+            module = wrap
         cfgpath = os.path.join(work, module + ".cfg")
         if isinstance(cfg, dict):
             _write_cfg(cfgpath, cfg)
